@@ -3,9 +3,9 @@ from . import core, layers_common as L
 
 PROP = "C11"
 DRIVER = "drv_layers"
-LEAN_MODULES = ["MesaModel.Props.C11", "MesaModel.Props.C18Layers"]
+LEAN_MODULES = ["MesaModel.Props.C11", "MesaModel.Props.C11Ball", "MesaModel.Props.C18Layers"]
 _T = [
-    "C11_reach_iff_history", "C11_descriptors_are_the_layer_dict", "C11_two_views_one_value", "C11_cell_write_read_through_layer",
+    "C11_reach_iff_history", "C11_layers_never_share_an_array", "C11_descriptors_are_the_layer_dict", "C11_two_views_one_value", "C11_cell_write_read_through_layer",
     "C11_layer_write_read_through_cell", "C11_single_cell_write_accepted_iff", "C11_value_changes_only_by_writes", "C11_read_after_write_persists",
     "C11_set_cells_pointwise", "C11_modify_cells_pointwise", "C11_attached_layers_have_entries",
     "C11_set_in_place_modify_repoints", "C11_modify_cell_pointwise", "C11_write_through_live_reference",
@@ -18,7 +18,8 @@ _T = [
     "C11_assignment_cast_value", "C11_typed_cell_write_one_value", "C11_typed_layer_write_one_value",
     "C11_set_cells_typed", "C11_modify_promotes_dtype", "C11_ufunc_result_types", "C11_modify_ufunc_typed", "C11_ufunc_mul_exact",
     "C11_dtype_changes_only_by_modify", "C11_modify_cell_typed", "C11_from_data_copies",
-    "C11_within_radius_symmetric", "C11_neighborhood_mask_exact", "C11_select_within_saved_mask",
+    "C11_within_radius_symmetric", "C11_neighborhood_mask_exact", "C11_neighborhood_mask_is_hop_closure_partial",
+    "C11_select_within_saved_mask",
     "C11_shared_layer_second_grid", "C11_set_cells_array_pointwise",
     "C11_create_typed_default", "C11_new_layer_typed_default",
     "C11_layer_select_exact", "C11_layer_select_reads_cell_values", "C11_aggregate_exact",
